@@ -77,7 +77,7 @@ META.update({
 META.update({
  "C04": dict(engine="native forked probes", category="fault_enumeration",
    technique="failpoint sweep: a real delivery raised at every step of the first registration (and bombardment of other threads), foreign handler and actions logging unique per-delivery sequence numbers and argument pointers",
-   text="Per trial the log must show the previous handler exactly once per delivered sequence number, first, with the kernel's info pointer; hundreds of deliveries per run go through the race-fallback path (the window between sigaction() and the publication of the slot). Further histories: the foreign handler replaced between the library's look at the disposition and its sigaction(); the same foreign handler on two signals; another thread starting a first registration while this one is held right after its sigaction(); an application handler installed on top of the library's that chains back to it (must run once, not recurse).",
+   text="Per trial the log must show the previous handler exactly once per delivered sequence number, first, with the kernel's info pointer; hundreds of deliveries per run go through the race-fallback path (the window between sigaction() and the publication of the slot). Further histories: the foreign handler replaced between the library's look at the disposition and its sigaction(); the same foreign handler on two signals; another thread starting a first registration while this one is held right after its sigaction(); an application handler installed on top of the library's that chains back to it (must run once, not recurse). A delivery inside the sigaction-to-publication window is also parked at every failpoint of the dispatcher in turn while the registration completes and another signal's first registration overwrites the race fallback: H exactly once.",
    note="arrival instants = hook sites, every instruction between them (trap-flag stepping of the registering thread; all in thorough, every 5th in quick) + random bombardment; chaining cannot be run under Miri"),
  "C05": dict(engine="native forked probes", category="exploration",
    technique="runtime monitoring against an executable reference model (per-signal ordered Vec of (id, tag)) with a delivery after every operation; sigaction(2) and a blocked read(2) as kernel oracles",
